@@ -35,7 +35,13 @@ def catalogue(thorough):
 def plan(ctx):
     THOROUGH[0] = ctx.thorough
     cfgs = catalogue(ctx.thorough)
-    return [cfgs[k:k + 5] for k in range(0, len(cfgs), 5)]
+    big = [c for c in cfgs if len(c['W']) >= 5]
+    small = [c for c in cfgs if len(c['W']) < 5]
+    return [[c] for c in big] + [small[k:k + 5] for k in range(0, len(small), 5)]
+
+
+def unit_cost(unit):
+    return max(len(c['W']) for c in unit)
 
 
 def asym(cfg):
